@@ -26,12 +26,7 @@ Definition model_file_entries (s : store) (w : world) (m : mid) : entries :=
 Definition save_model_reg (open_ok ws : bool) (s : store) (w : world) (m : mid) : M ostream unit :=
   save_model open_ok ws (model_file_entries s w m).
 
-(* std::map<std::vector<std::string>, Parameter *>::find *)
-Fixpoint map_find (k : path) (l : list (path * pid)) : option pid :=
-  match l with
-  | [] => None
-  | (k', p) :: r => match path_cmp k k' with Eq => Some p | _ => map_find k r end
-  end.
+(* map_find = std::map<std::vector<std::string>, Parameter *>::find is defined in ModelReg.v *)
 (* const auto it = params.find(key); if (it == params.end()) THROW;
    it->second->load_inner(reader, with_stats, device); *)
 Definition on_param_reg (params : list (path * pid)) (key : path) (act : M (bytes * param) unit)
@@ -566,4 +561,59 @@ Proof.
   apply load_model_atomic in Hsim. unfold entries_of in Hsim.
   destruct (enumeration_exact n w m HI) as (l0 & E0 & _ & _ & _ & Hl). rewrite E in E0. injection E0 as <-.
   apply Hl in Hr. apply (Forall2_map_same _ _ _ _ Hsim (k, p) Hr).
+Qed.
+
+(* ------------------------------------------------------------------ any well-formed file, any loading model
+   Loading the file that holds [es] into ANY model (same structure or not) performs exactly
+   the assignments of ModelReg.model_load_plan, each with the completely read record, and
+   fails exactly at the first key the loading model does not have (earlier assignments stay).
+   This is the abstraction at which harness/reg_drv.cc runs Model::save / Model::load. *)
+Definition apply_plan (ws : bool) (asg : list (pid * param)) (s : store) : store :=
+  fold_left (fun s x => store_upd s (fst x) (loaded ws (snd x))) asg s.
+
+Lemma load_entries_reg_plan ws l' : forall (es : entries) rest s, Forall wf_entry es ->
+  exists b', load_entries_reg ws l' (length es) (flat_map (enc_entry ws) es ++ rest, s) =
+               (fst (load_keys l' es), (b', apply_plan ws (snd (load_keys l' es)) s)) /\
+             (fst (load_keys l' es) = Some tt -> b' = rest).
+Proof.
+  induction es as [|[k r] es IH]; intros rest s Hwf.
+  - exists rest. split; reflexivity.
+  - inversion Hwf as [|? ? [Hp1 Hp2] Hwf']; subst. cbn [fst snd] in *.
+    cbn [length load_entries_reg flat_map load_keys]. unfold enc_entry at 1. cbn [fst snd]. rewrite <- !app_assoc.
+    rewrite (bind_lift_some (r_vec r_str) _ _ _ k (enc_param_inner ws r ++ flat_map (enc_entry ws) es ++ rest))
+      by (apply roundtrip_path; exact Hp1).
+    unfold bind at 1. unfold on_param_reg. cbn [fst snd].
+    destruct (map_find k l') as [p'|].
+    + rewrite load_inner_enc by exact Hp2.
+      destruct (IH rest (store_upd s p' (loaded ws r)) Hwf') as (b' & E & Hb).
+      destruct (load_keys l' es) as [res asg]. cbn [fst snd] in *. exists b'. split; auto.
+    + eexists. split; [reflexivity|]. cbn [fst]. discriminate.
+Qed.
+
+Theorem load_model_reg_plan ws w' m' (es : entries) rest s0 :
+  get_all_parameters w' m' <> None ->
+  Forall wf_entry es -> (N.of_nat (length es) < 2 ^ 32)%N ->
+  exists b', load_model_reg ws w' m' (enc_model_file ws es ++ rest, s0) =
+               (fst (model_load_plan w' m' es), (b', apply_plan ws (snd (model_load_plan w' m' es)) s0)) /\
+             (fst (model_load_plan w' m' es) = Some tt -> b' = rest).
+Proof.
+  intros Hsome Hwf Hn. unfold load_model_reg, model_load_plan, enc_model_file. rewrite <- !app_assoc. unfold bind at 1.
+  rewrite load_header_enc by reflexivity.
+  rewrite (bind_lift_some r_u32 _ _ _ (N.of_nat (length es)) (flat_map (enc_entry ws) es ++ rest))
+    by (apply read_write_u32; exact Hn).
+  destruct (get_all_parameters w' m') as [l'|]; [|congruence]. cbn [fst].
+  assert (L : (length es <= length (flat_map (enc_entry ws) es))%nat).
+  { apply length_flat_map_ge. eapply Forall_impl; [|exact Hwf]. intros kp. apply enc_entry_nonempty. }
+  replace (N.to_nat (N.min (N.of_nat (length es)) (len (flat_map (enc_entry ws) es ++ rest) + 1))) with (length es).
+  2:{ rewrite len_app. unfold len. lia. }
+  apply load_entries_reg_plan. exact Hwf.
+Qed.
+
+Theorem load_model_reg_any ws n' w' m' (es : entries) rest s0 : Inv n' w' ->
+  Forall wf_entry es -> (N.of_nat (length es) < 2 ^ 32)%N ->
+  exists b', load_model_reg ws w' m' (enc_model_file ws es ++ rest, s0) =
+               (fst (model_load_plan w' m' es), (b', apply_plan ws (snd (model_load_plan w' m' es)) s0)) /\
+             (fst (model_load_plan w' m' es) = Some tt -> b' = rest).
+Proof.
+  intros HI. apply load_model_reg_plan. apply (traversals_terminate n' w' HI m' 0).
 Qed.
